@@ -12,6 +12,12 @@ use crate::dsl::*;
 use crate::graph::*;
 use std::collections::VecDeque;
 
+/// sub-states of `BlockOn`
+pub const BO_REG_FIRST: u8 = 1;
+pub const BO_CHECK: u8 = 2;
+pub const BO_REG_AFTER: u8 = 3;
+pub const BO_WAIT: u8 = 4;
+
 pub trait Choose {
     /// pick one of `n` alternatives (n >= 1)
     fn choose(&mut self, n: usize) -> usize;
@@ -196,6 +202,13 @@ pub struct Machine<'p> {
     last_sc_fence: Option<usize>,
     cell_val: Vec<u64>,
     lazy_init_ev: [Option<usize>; 2],
+    /// shared AtomicWaker: Some(event of the registration) while a waker is registered
+    aw_slot: Option<(usize, u8, u32)>,
+    /// generation of each thread's block_on calls (a registered waker belongs to one call)
+    bo_gen: Vec<u32>,
+    aw_last_unlock: Option<usize>,
+    /// per thread: the Notify of its current block_on: notified flag + source, spurious used
+    bo: Vec<NotifySt>,
     /// guided replay: a cell read returned something else than the latest write (only legal in
     /// an execution that has a data race)
     pub cell_mismatch: bool,
@@ -267,6 +280,10 @@ impl<'p> Machine<'p> {
             last_sc_fence: None,
             cell_val: vec![0; p.n_cell as usize],
             lazy_init_ev: [None; 2],
+            aw_slot: None,
+            bo_gen: vec![0; nt],
+            aw_last_unlock: None,
+            bo: vec![NotifySt::default(); nt],
             cell_mismatch: false,
             extra_large: Vec::new(),
             results: p.threads.iter().map(|t| vec![None; t.len()]).collect(),
@@ -379,6 +396,14 @@ impl<'p> Machine<'p> {
                 st.flag || (self.cfg.reading == Reading::May && !st.spurious_used)
             }
             Op::Recv { c } => !self.chan[c as usize].queue.is_empty(),
+            Op::BlockOn { a, o, .. } => match self.th[t].sub {
+                BO_WAIT => {
+                    let st = &self.bo[t];
+                    st.flag || (self.cfg.reading == Reading::May && !st.spurious_used)
+                }
+                BO_CHECK => !self.read_candidates(t, a, o, None, false).is_empty(),
+                _ => true,
+            },
             Op::Await { a, o, v } | Op::AwaitY { a, o, v } => !self.read_candidates(t, a, o, Some(v), false).is_empty(),
             _ => true,
         }
@@ -398,6 +423,7 @@ impl<'p> Machine<'p> {
         let tid = t as u8;
         match *op {
             Op::NWait { n } => self.notify[n as usize].flag,
+            Op::BlockOn { .. } if self.th[t].sub == BO_WAIT => self.bo[t].flag,
             Op::CvWait { c, m } if self.th[t].sub == 1 => {
                 let woken = self.th[t].cv_notified.is_some()
                     || self.cv[c as usize].permits.iter().any(|(el, _)| el.contains(&tid));
@@ -449,10 +475,27 @@ impl<'p> Machine<'p> {
         )
     }
 
+    pub fn is_block_on(&self, t: usize) -> bool {
+        matches!(self.cur_op(t).and_then(|o| self.effective(t, o)), Some(Op::BlockOn { .. }))
+    }
+    pub fn block_on_value(&self, t: usize) -> Option<u64> {
+        match self.cur_op(t).and_then(|o| self.effective(t, o)) {
+            Some(Op::BlockOn { v, .. }) => Some(*v),
+            _ => None,
+        }
+    }
+    /// after a Pending poll with check-then-register the registration is still due
+    pub fn block_on_can_advance_to_wait(&self, t: usize) -> bool {
+        self.is_block_on(t) && self.th[t].sub == BO_REG_AFTER
+    }
+
     /// The thread has invoked a compound op whose hidden first phase has not happened yet.
     pub fn in_compound_first_phase(&self, t: usize) -> bool {
         match self.cur_op(t).and_then(|o| self.effective(t, o)) {
             Some(Op::CvWait { m, .. }) => self.th[t].sub == 0 && self.mutex[*m as usize].owner == Some(t as u8),
+            // registration and wake-up inside block_on leave no event of their own
+            Some(Op::AwWake) => self.guided && self.th[t].sub == 0,
+            Some(Op::BlockOn { reg_first, .. }) => matches!(self.th[t].sub, BO_REG_FIRST | BO_REG_AFTER | BO_WAIT) || (self.th[t].sub == 0 && *reg_first),
             _ => false,
         }
     }
@@ -1205,6 +1248,85 @@ impl<'p> Machine<'p> {
                 let init = self.lazy_init_ev[k as usize].unwrap();
                 if init != e {
                     self.g.extra.push((init, e));
+                }
+            }
+            Op::BlockOn { a, v, o, reg_first } => {
+                completed = false;
+                // a fresh block_on starts with a fresh Notify
+                if self.th[t].sub == 0 {
+                    self.bo[t] = NotifySt::default();
+                    self.bo_gen[t] += 1;
+                    self.th[t].sub = if reg_first { BO_REG_FIRST } else { BO_CHECK };
+                }
+                match self.th[t].sub {
+                    BO_REG_FIRST | BO_REG_AFTER => {
+                        let e = self.push_ev(t, pc, EK::Sync, NOLOC, MO::Rlx);
+                        // lock hand-over of the AtomicWaker's internal lock
+                        if let Some(u) = self.aw_last_unlock {
+                            self.g.extra.push((u, e));
+                        }
+                        self.aw_last_unlock = Some(e);
+                        self.aw_slot = Some((e, tid, self.bo_gen[t]));
+                        self.th[t].sub = if self.th[t].sub == BO_REG_FIRST { BO_CHECK } else { BO_WAIT };
+                    }
+                    BO_CHECK => {
+                        let want = if self.guided { exp } else { None };
+                        let cands = self.read_candidates(t, a, o, want, false);
+                        if cands.is_empty() {
+                            return Err(StepErr::Reject(format!("T{} block_on: flag value {:?} not readable", t, exp)));
+                        }
+                        let w = cands[ch.choose(cands.len())];
+                        self.do_read(t, pc, a, o, w, false);
+                        if self.g.evs[w].wval == v {
+                            completed = true;
+                        } else {
+                            self.th[t].sub = if reg_first { BO_WAIT } else { BO_REG_AFTER };
+                        }
+                    }
+                    _ => {
+                        // BO_WAIT: woken by a notification or (MAY) the one spurious return
+                        let e = self.push_ev(t, pc, EK::Sync, NOLOC, MO::Rlx);
+                        let may = self.cfg.reading == Reading::May;
+                        let st = &mut self.bo[t];
+                        let can_consume = st.flag;
+                        let can_spur = may && !st.spurious_used;
+                        let spur = if can_consume && can_spur { ch.choose(2) == 1 } else { !can_consume };
+                        if spur {
+                            assert!(can_spur);
+                            st.spurious_used = true;
+                        } else {
+                            st.flag = false;
+                            if let Some(s) = st.src {
+                                self.g.extra.push((s, e));
+                            }
+                            self.probe_blocked_then_woken += 1;
+                        }
+                        self.th[t].sub = if reg_first { BO_REG_FIRST } else { BO_CHECK };
+                    }
+                }
+            }
+            Op::AwWake if self.th[t].sub == 1 => {
+                // the tail of wake(): dropping the waker (no effect in the model)
+            }
+            Op::AwWake => {
+                // the effect of wake() is not its last scheduling point (the waker is dropped
+                // afterwards): guided replay places it anywhere between invoke and return
+                if self.guided {
+                    completed = false;
+                    self.th[t].sub = 1;
+                }
+                let e = self.push_ev(t, pc, EK::Sync, NOLOC, MO::Rlx);
+                if let Some(u) = self.aw_last_unlock {
+                    self.g.extra.push((u, e));
+                }
+                self.aw_last_unlock = Some(e);
+                if let Some((_, owner, gen)) = self.aw_slot.take() {
+                    // a waker of a block_on call that has already returned wakes nobody
+                    if self.bo_gen[owner as usize] == gen {
+                        let st = &mut self.bo[owner as usize];
+                        st.flag = true;
+                        st.src = Some(e);
+                    }
                 }
             }
             Op::StopExploring => self.th[t].in_region = true,
